@@ -61,7 +61,9 @@ var vpC05Bodies = []string{"hello", "GET /smug HTTP/1.1\r\nHost: s\r\nInj-20: v\
 
 // names that fasthttp manages itself (may appear without having been passed as a name argument)
 var vpC05AutoReq = map[string]bool{"host": true, "user-agent": true, "content-type": true, "content-length": true,
-	"transfer-encoding": true, "connection": true, "trailer": true}
+	"transfer-encoding": true, "connection": true, "trailer": true,
+	// Request.Write derives "Authorization: Basic <base64>" from userinfo found in any URI argument
+	"authorization": true}
 var vpC05AutoResp = map[string]bool{"server": true, "date": true, "content-type": true, "content-length": true,
 	"content-encoding": true, "transfer-encoding": true, "connection": true, "trailer": true}
 
